@@ -1,14 +1,17 @@
 """C20 — Re-Pair compression is lossless and never merges across string terminators."""
-from props import compcheck, gen_repair
+from props import compcheck, gen_repair, gen_rpfc
 
 
 def check(run, tier, seed, replay):
-    compcheck.run(run, "C20", [gen_repair], tier, seed, replay,
+    compcheck.run(run, "C20", [gen_repair, gen_rpfc], tier, seed, replay, timeout_case=300,
                   rule="integer sequences over 0..255 with 0 as terminator: no repeated pair, single string, highly repetitive "
                        "(a^(2^k), abab...), runs of one symbol, many short strings, most frequent pair straddling a terminator, "
-                       "alphabets crossing powers of two; each run through the REAL compressor as the dictionary constructors call "
+                       "alphabets crossing powers of two, a 1.3M-symbol text that keeps > 10^5 pairs alive (pair hash table growth; oracle SKIPs, "
+                       "losslessness evaluated directly); each run through the REAL compressor as the dictionary constructors call "
                        "it (rp_build) and through a real StringDictionaryRPDAC (rpd_build); the grammar it produced is checked by the "
-                       "extracted verified checker check_grammar and re-derived line by line by the model. Non-trivial = a case that "
+                       "extracted verified checker check_grammar and re-derived line by line by the model; plus the RPFC component (real RPFC objects, "
+                       "incl. shared prefixes of exactly 127/128/129/255/256/257 bytes whose VByte contains a 0 byte right after a terminator, "
+                       "decoded by the bit-exact RPFC model). Non-trivial = a case that "
                        "ran the compressor; distinct by the command list.",
                   assumptions=["the heap/hash/linked-list machinery of IRePair.cpp is not modelled: losslessness is proved for EVERY legal "
                                "choice of pair and occurrence set, that the C++ makes a legal choice is validated per instance by check_grammar"])
